@@ -355,7 +355,7 @@ pub fn flex_layout(
     mut layout: ViewMutLayout<'_>,
 ) -> Result<(), Error> {
     let mut flex_total = 0.0;
-    let mut major_non_flex = 0;
+    let mut major_non_flex: usize = 0;
     let mut minor = direction.minor(ct.min());
     let ct_loosen = ct.loosen();
 
@@ -365,7 +365,8 @@ pub fn flex_layout(
         match child.flex {
             None => {
                 child.view.layout(ctx, ct_loosen, child_layout.view_mut())?;
-                major_non_flex += direction.major(child_layout.size());
+                major_non_flex =
+                    major_non_flex.saturating_add(direction.major(child_layout.size()));
                 minor = max(minor, direction.minor(child_layout.size()));
             }
             Some(flex) => flex_total += flex,
@@ -374,7 +375,7 @@ pub fn flex_layout(
 
     // layout flex
     let mut major_remain = direction.major(ct.max()).saturating_sub(major_non_flex);
-    let mut major_flex = 0;
+    let mut major_flex: usize = 0;
     if major_remain > 0 && flex_total > 0.0 {
         let mut child_layout_opt = layout.child_mut();
         for child in children.iter() {
@@ -398,7 +399,7 @@ pub fn flex_layout(
                     // child is free to ignore its constraint (e.g. `Frame` always
                     // adds the border), it must not underflow remaining space
                     major_remain = major_remain.saturating_sub(child_major);
-                    major_flex += child_major;
+                    major_flex = major_flex.saturating_add(child_major);
                     minor = max(minor, child_minor);
                 }
             }
@@ -409,7 +410,7 @@ pub fn flex_layout(
     // unused space to be filled
     let unused = direction
         .major(ct.max())
-        .saturating_sub(major_non_flex + major_flex);
+        .saturating_sub(major_non_flex.saturating_add(major_flex));
     let (space_side, space_between) = if unused > 0 {
         match justify {
             Justify::Start => (0, 0),
@@ -449,8 +450,10 @@ pub fn flex_layout(
                 child.align.align(direction.minor(child_size), minor),
             ));
 
-            major_offset += child_size.major(direction);
-            major_offset += space_between;
+            // children are free to report arbitrary large sizes (unbounded constraints)
+            major_offset = major_offset
+                .saturating_add(child_size.major(direction))
+                .saturating_add(space_between);
 
             child_layout_opt = child_layout.sibling();
         }
@@ -479,12 +482,12 @@ pub fn flex_render(
             let mut surf = match direction {
                 Axis::Horizontal => {
                     let start = child_layout.position().col;
-                    let end = start + child_layout.size().width;
+                    let end = start.saturating_add(child_layout.size().width);
                     surf.view_mut(.., start..end)
                 }
                 Axis::Vertical => {
                     let start = child_layout.position().row;
-                    let end = start + child_layout.size().height;
+                    let end = start.saturating_add(child_layout.size().height);
                     surf.view_mut(start..end, ..)
                 }
             };
